@@ -120,15 +120,41 @@ func mergeMappings(mapping map[string]any, other map[string]any, p tree.Path) (m
 
 // logging driver options are merged only when both compose file define the same driver
 func mergeLogging(c any, o any, p tree.Path) (any, error) {
-	config := c.(map[string]any)
-	other := o.(map[string]any)
+	// an empty (null) section on either side leaves the other side as it is
+	if c == nil {
+		return o, nil
+	}
+	if o == nil {
+		return c, nil
+	}
+	config, ok := c.(map[string]any)
+	if !ok {
+		return nil, fmt.Errorf("cannot override %s", p)
+	}
+	other, ok := o.(map[string]any)
+	if !ok {
+		return nil, fmt.Errorf("cannot override %s", p)
+	}
 	// we override logging config if source and override have the same driver set, or none
 	d, ok1 := other["driver"]
 	o, ok2 := config["driver"]
-	if d == o || !ok1 || !ok2 {
+	if sameScalar(d, o) || !ok1 || !ok2 {
 		return mergeMappings(config, other, p)
 	}
 	return other, nil
+}
+
+// sameScalar is d == o for values that can be compared (two mappings or two sequences are never the same driver)
+func sameScalar(d, o any) bool {
+	switch d.(type) {
+	case map[string]any, []any:
+		return false
+	}
+	switch o.(type) {
+	case map[string]any, []any:
+		return false
+	}
+	return d == o
 }
 
 func mergeBuild(c any, o any, path tree.Path) (any, error) {
